@@ -2,7 +2,9 @@ package props
 
 import (
 	"fmt"
+	"math"
 	"math/rand"
+	"time"
 	"strings"
 	"sync/atomic"
 
@@ -120,7 +122,7 @@ func (s *shapeSim) helper(genBool bool, n int) bool {
 	return true
 }
 
-var c20LeafVals = []int{0, 50, 51}
+var c20LeafVals = []int{0, 50, 51, 52}
 
 func menuFor(d nextDraw) []int {
 	switch d.kind {
@@ -158,7 +160,7 @@ func (c c20cfg) String() string {
 }
 
 var (
-	c20Num  = []eval.GenExprResult{{Expr: "n_zero", Res: int64(0)}, {Expr: "n_seven", Res: int64(7)}, {Expr: "n_neg", Res: int64(-3)}}
+	c20Num  = []eval.GenExprResult{{Expr: "n_min", Res: int64(math.MinInt64)}, {Expr: "n_m1", Res: int64(-1)}, {Expr: "n_zero", Res: int64(0)}, {Expr: "n_seven", Res: int64(7)}, {Expr: "n_max", Res: int64(math.MaxInt64)}}
 	c20Bool = []eval.GenExprResult{{Expr: "b_true", Res: true}, {Expr: "b_false", Res: false}}
 	c20Dne  = []eval.GenExprResult{{Expr: "d_one", Res: eval.DNE}, {Expr: "d_two", Res: eval.DNE}}
 )
@@ -180,7 +182,7 @@ func (c c20cfg) options() []eval.GenExprOption {
 		o = append(o, eval.EnableTryEval)
 	}
 	if c.viaGenVariables {
-		o = append(o, eval.GenVariables(map[string]interface{}{"n_seven": 7, "b_true": true, "d_one": eval.DNE}))
+		o = append(o, eval.GenVariables(c20GenVarMap))
 	} else {
 		// fixed order, so that runs are replayable
 		o = append(o, func(g *eval.GenExprConfig) {
@@ -190,6 +192,31 @@ func (c c20cfg) options() []eval.GenExprOption {
 		})
 	}
 	return o
+}
+
+// c20level is a defined integer type: UnifyType does not convert it, so it
+// is neither a number nor a boolean for the generator and must not be used.
+type c20level int32
+
+// variables handed over through GenVariables, in the Go types a caller may use
+var c20GenVarMap = map[string]interface{}{
+	"n_seven": 7, "n_i32": int32(-9), "n_u8": uint8(200), "n_dur": 90*time.Second + 700*time.Millisecond, "n_time": time.Unix(1700000000, 5).UTC(),
+	"b_true": true, "d_one": eval.DNE, "x_level": c20level(3), "x_str": "text", "x_list": []int{1, 2},
+}
+
+// c20Value: the value of a variable under the engine's normalisation.
+func c20Value(name string) (eval.Value, bool) {
+	for _, l := range [][]eval.GenExprResult{c20Num, c20Bool} {
+		for _, v := range l {
+			if v.Expr == name {
+				return v.Res, true
+			}
+		}
+	}
+	if v, ok := c20GenVarMap[name]; ok && v != interface{}(eval.DNE) {
+		return eval.UnifyType(v), true
+	}
+	return nil, false
 }
 
 type c20worker struct {
@@ -203,21 +230,15 @@ func newC20Worker() *c20worker {
 	for i, v := range append(append(append([]eval.GenExprResult{}, c20Num...), c20Bool...), c20Dne...) {
 		w.cfg.VariableKeyMap[v.Expr] = eval.VariableKey(i + 1)
 	}
+	for name := range c20GenVarMap {
+		eval.GetOrRegisterKey(w.cfg, name)
+	}
 	return w
 }
 
 type c20fetch struct{ withDNE bool }
 
-func (f c20fetch) val(s string) (eval.Value, bool) {
-	for _, l := range [][]eval.GenExprResult{c20Num, c20Bool} {
-		for _, v := range l {
-			if v.Expr == s {
-				return v.Res, true
-			}
-		}
-	}
-	return nil, false
-}
+func (f c20fetch) val(s string) (eval.Value, bool) { return c20Value(s) }
 func (f c20fetch) Get(_ eval.VariableKey, s string) (eval.Value, error) {
 	v, ok := f.val(s)
 	if !ok {
@@ -239,20 +260,27 @@ func c20Check(r *rep.Run, w *c20worker, c c20cfg, level int, how string, res eva
 		return
 	}
 	env := &ref.Env{Vals: map[string]interface{}{}, Custom: ref.Customs}
-	for _, v := range c20Num {
-		env.Vals[v.Expr] = v.Res
-	}
-	for _, v := range c20Bool {
-		env.Vals[v.Expr] = v.Res
-	}
 	hasDNE := false
+	bad := ""
 	t.Walk(func(n *term.Term) {
-		if n.K == term.KVar && strings.HasPrefix(n.Name, "d_") {
-			hasDNE = true
+		if n.K != term.KVar {
+			return
 		}
+		if strings.HasPrefix(n.Name, "d_") {
+			hasDNE = true
+			env.Vals[n.Name] = ref.Unknown
+			return
+		}
+		v, ok := c20Value(n.Name)
+		if !ok {
+			bad = n.Name
+			return
+		}
+		env.Vals[n.Name] = v
 	})
-	for _, v := range c20Dne {
-		env.Vals[v.Expr] = ref.Unknown
+	if bad != "" {
+		r.Violate("unknown-variable", c.String(), sprintf("the generated expression uses %q, which it was not given", bad), d)
+		return
 	}
 	var want interface{}
 	var werr error
@@ -302,7 +330,7 @@ func c20(r *rep.Run) {
 	r.SetBudget(150e9)
 	if r.Thorough() {
 		maxDev, seeds = 4, 100000
-		c20LeafVals = []int{0, 1, 49, 50, 51, 99}
+		c20LeafVals = []int{0, 1, 49, 50, 51, 52, 99}
 		r.SetBudget(2400e9)
 	}
 	r.Rule = "the generator draws only from the *rand.Rand it is given; the harness supplies rand.New(scripted source) whose answers the explorer chooses (Int63 = c<<32 makes Intn(n) = c mod n). A draw-shape automaton (control flow only: which draw comes next — node choice, leaf choice, leaf value, sub-level, arity) gives each draw its menu; it is bound to the code on every run: the real generator must consume exactly the predicted number of draws. Menus are complete for structural draws (10 node choices, all sub-levels, 3 arities) and use value classes for leaves ({variable, DNE variable, constant} x {every variable index, both sides of the true/false boundary, the numbers -50, 0, 1 (thorough: also -49, -1, 49)}). DFS: EVERY decision sequence at level <= 1; at levels 2..4 every sequence with at most maxDev non-default answers (deviation bound); plus every real seed 0..N at levels 0..6; x both result types x all 8 option combinations (+ variables through GenVariables). Oracle: the text parses, reference evaluation (R1, or Kleene R2 when a DNE variable occurs) does not fail and equals the reported result; the expression compiles with the given variables and the engine's Eval/TryEval returns the same value. non-trivial = generated expressions containing an operator application"
